@@ -45,7 +45,7 @@ from odl.space.base_tensors import TensorSpace
 from mc.ref import c20_model as M
 
 PROPERTY = 'C20'
-BUDGET = {'quick': 600, 'thorough': 3600}
+BUDGET = {'quick': 1500, 'thorough': 3600}
 
 warnings.simplefilter('ignore')
 
